@@ -42,7 +42,7 @@ ARCHES = ["x86_64", "i386", "aarch64", "ppc64le", "s390x"]
 
 def plan(tier):
     if tier == "thorough":
-        return {"shards": 16, "params": {"histories": 8000, "budget_s": 1500}, "timeout_s": 3000}
+        return {"shards": 16, "params": {"histories": 30000, "budget_s": 2500}, "timeout_s": 4000}
     return {"shards": 4, "params": {"histories": 350, "budget_s": 300}, "timeout_s": 900}
 
 
